@@ -47,7 +47,7 @@ PROPS["C04"] = make_prop("C04", [ES("C04", "C04", "nodes"), ES("C04", "C15", "no
     "all pairs of operand values x 6 operators x operand forms embedded as $[?lhs op rhs]; the child is selected iff the spec's Compare is true; " + NT, COMMON_ASSUME)
 PROPS["C05"] = make_prop("C05", [ES("C05", "C05", "order")],
     "logical expressions of depth <= 3 over test/comparison/nested-filter atoms applied to arrays and objects of children covering presence/absence and falsy values; selected children compared in order; " + NT, COMMON_ASSUME)
-PROPS["C10"] = make_prop("C10", [ES("C10", "C10", "nodes,j")],
+PROPS["C10"] = make_prop("C10", [ES("C10", "C10", "nodes,j"), TE("C10", {"fn"})],
     "regex ASTs of depth <= 2 rendered to patterns x subject strings (match and search), and length/count/value over every JSON type and NOTHING; " + NT,
     COMMON_ASSUME + ["patterns containing ^ or $ are outside the universe (RFC 9485 reads them as literals, the implementation's dialect as anchors)"])
 PROPS["C11"] = make_prop("C11", [tlaps_stage, slice_loop_stage, ES("C11", "C11", "order"), TE("C11", {"slice"})],
